@@ -221,6 +221,31 @@ def _run(ck, m):
                             if 'role' in rv.get('fields', []):
                                 for r2 in origins(ub, rv['ops'][rv['fields'].index('role')]):
                                     adds.append(role_of_root(m, ub, r2))
+        # the announcement is unconditional: in the body that registers this node as Primary, the call that sends the set-primary
+        # text post-dominates the registration (a winner that keeps quiet because "it is primary already" leaves the node it
+        # out-ranked naming itself)
+        from nl.locks import backward_slice as _bsl7
+        silent = []
+        for ub in unit:
+            regs = [bi for bi, t in ub.calls() if callee(t).endswith('add_cluster_member') and any(
+                r[0] == 'agg' and 'role' in ub.blocks[r[1]]['s'][r[2]]['r'].get('fields', []) and
+                any(role_of_root(m, ub, r2) == {'Primary'} for r2 in origins(ub, ub.blocks[r[1]]['s'][r[2]]['r']['ops'][ub.blocks[r[1]]['s'][r[2]]['r']['fields'].index('role')]))
+                for r in origins(ub, t['args'][1]))]
+            tbis = [bi for bi, f in templates_in(m, ub) if wire.first_word(f) == 'set-primary']
+            sends = [bi for bi, t in ub.calls() if P.bodies.get(callee(t)) is not None and any(set(_bsl7(ub, a)[0]) & set(tbis) for a in t['args'])]
+            for a_ in regs:
+                if not sends:
+                    continue
+                # the body is a coroutine with an endless receive loop: "follows" = no suspension point (the next receive) and no
+                # return is reached from the registration without passing the send
+                seen_ = ub.reach_from([a_], stop=lambda y: y in sends)
+                if any(ub.term(y)['k'] in ('yield', 'return', 'coroutinedrop') for y in seen_ if y not in sends):
+                    silent.append(ub.loc(a_))
+        ck.ob('C07.b', short(sp.id), 'announcement-follows-every-registration', not silent,
+              'every registration of this node as Primary is followed by the set-primary broadcast' if not silent else
+              'the supervisor registers this node as Primary at %s and can skip the set-primary broadcast afterwards: a node that announced '
+              'itself in between (a forced election on a secondary, two shortcut wins at start-up) was made to yield, yet nobody tells it '
+              'who won — it keeps naming itself as the primary' % silent, silent[0] if silent else '')
         parses = bool(tm) and sch.get('set-primary', ([], [], None))[1] == ['SetPrimary']
         okb2 = parses and {'Primary'} in adds
         ck.ob('C07.b', short(sp.id), 'announce-set-primary', okb2,
